@@ -1,5 +1,6 @@
 """C15 - every proposed simplification is applicable and lexically closed."""
 import os
+import pickle
 
 from hypothesis import strategies as st
 
@@ -86,6 +87,14 @@ def check_proposals(dd, exprs, acc, case, counts, traps, muts=None):
     base_leaves = {t for t in model.preorder_list(plain) if isinstance(t, str)}
     if muts is None:
         muts = make_instances(dd)
+    try:
+        wire_exprs = pickle.loads(pickle.dumps(exprs))
+        if model.to_plain(wire_exprs) != plain:
+            acc.violation('other/input-differs-after-pickling', model.render_list(model.to_plain(wire_exprs))[:300], {k: v for k, v in case.items() if not k.startswith('_')})
+            wire_exprs = None
+    except Exception as e:  # noqa
+        acc.violation('other/input-not-picklable', f'{type(e).__name__}: {e}', {k: v for k, v in case.items() if not k.startswith('_')})
+        wire_exprs = None
     tmp = os.path.join(case['_workdir'], 'c15-check.smt2')
     nt = False
     pub = {k: v for k, v in case.items() if not k.startswith('_')}
@@ -151,6 +160,21 @@ def check_proposals(dd, exprs, acc, case, counts, traps, muts=None):
                     V('apply-result-not-a-list-of-nodes', repr(res)[:200])
                     continue
                 rplain = model.to_plain(res)
+                # ... and applicable where a run applies it: in a worker, to the unpickled input,
+                # after the simplification itself went through pickle
+                if wire_exprs is not None:
+                    try:
+                        with guard.cpu_limit(CPU):
+                            s2 = pickle.loads(pickle.dumps(dd.mutator_utils.Simplification(dict(simp.substs), list(simp.fresh_vars))))
+                            res2 = dd.mutator_utils.apply_simp(wire_exprs, s2)
+                        if model.to_plain(res2) != rplain:
+                            V('differs-after-pickling', f'applied to the pickled input: {model.render_list(model.to_plain(res2))[:200]!r}')
+                            continue
+                    except guard.CpuTimeout:
+                        pass
+                    except Exception as e:  # noqa
+                        V('apply-raises-after-pickling', f'{type(e).__name__}: {e}')
+                        continue
                 # renderable
                 try:
                     dd.nodeio.write_smtlib_for_checking(tmp, res)
@@ -304,6 +328,12 @@ def add_traps(draw, s):
         extra.append(['assert', ['ts2', ['tc', ['+', '1', '2'], 'false']]])
         traps.add('rare-mutator-shapes')
     if draw(st.booleans()):
+        # characters outside ASCII are legal in string literals and quoted symbols
+        extra.append(['declare-const', '|ü é|', 'Int'])
+        extra.append(['assert', ['>', '|ü é|', '0']])
+        extra.append(['assert', ['=', '"é∀ x"', ['str.++', '"é∀"', '" x"']]])
+        traps.add('non-ascii')
+    if draw(st.booleans()):
         # incremental benchmarks repeat (set-info :status ...) before each check-sat
         extra.append(['set-info', ':status', 'sat'])
         if draw(st.booleans()):
@@ -379,7 +409,7 @@ def run_case(dd, case, acc, workdir, counts, muts=None):
 def shard(ctx, acc):
     dd = env.load()
     env.set_options(dd, ['in.smt2', 'out.smt2', '/bin/true'])
-    total = 500 if ctx.quick else 12000
+    total = 320 if ctx.quick else 10000
     counts = {}
 
     muts = make_instances(dd)
